@@ -4,7 +4,7 @@
 From Coq Require Import Lia.
 From ChitchatModel Require Import Base SMap Ids Bytes Params NodeState Stream DeltaWire Message Cluster
   FD Chitchat SMap_lemmas NodeState_lemmas Builder_lemmas Stream_lemmas Agreement Inv DeltaRefine
-  Compute_lemmas NodeInv Wire_lemmas Prefix_lemmas.
+  Compute_lemmas NodeInv Wire_lemmas Prefix_lemmas Monitors Monitors_sound.
 
 (* the bound announced before an item is appended is an upper bound on the finished stream *)
 Theorem C07_stream_upper_bound_sound :
@@ -85,3 +85,12 @@ Proof.
   split; [exact Hlen|]. intros b Hb. rewrite (encode_len zc reply b Hb). exact Hlen.
 Qed.
 Print Assumptions C07_replies_fit_datagram.
+
+(* the version-prefix monitor evaluated on the implementation's replies and computed deltas
+   (c07_delta_ok: ascending from the start version, exactly the sender's stale entries up to the
+   announced max version, announced max version within the sender's, watermark = the sender's) is
+   satisfied by every delta the model computes *)
+Theorem C07_computed_deltas_pass_the_monitor : forall cs dg sched mtu x,
+  cluster_inv cs -> delta_shape cs dg sched mtu x -> c07_delta_ok (cs_nodes cs) [] x = true.
+Proof. exact computed_delta_passes_c07. Qed.
+Print Assumptions C07_computed_deltas_pass_the_monitor.
